@@ -60,7 +60,13 @@ pub struct Scenario {
     pub unbounded: bool,
     /// the body enumerates a family of cases itself (E2 loop scenario)
     pub loop_body: bool,
+    /// reachability obligations: (signature, what) and a predicate on one execution; if the
+    /// scenario is explored completely and no execution satisfies the predicate, that is a
+    /// violation (e.g. "the right input of a two-input block can be served first")
+    pub sometimes: Vec<Sometimes>,
 }
+
+pub type Sometimes = (String, String, std::sync::Arc<dyn Fn(&ExecResult) -> bool + Send + Sync>);
 
 #[derive(Clone, Debug, serde::Serialize, serde::Deserialize)]
 pub struct Violation {
@@ -137,6 +143,7 @@ const OBS_CAP: usize = 200_000;
 const MAX_VIOLATIONS: usize = 8;
 
 struct Acc {
+    sometimes_hit: Vec<bool>,
     s: Scenario,
     rep: ScenarioReport,
     obs: HashSet<u64>,
@@ -202,6 +209,11 @@ impl Acc {
         }
         match (s.check)(&r) {
             Ok(h) => {
+                for (i, (_, _, pred)) in s.sometimes.iter().enumerate() {
+                    if !self.sometimes_hit[i] && pred(&r) {
+                        self.sometimes_hit[i] = true;
+                    }
+                }
                 if self.obs.len() < OBS_CAP {
                     self.obs.insert(h);
                 } else {
@@ -323,6 +335,7 @@ pub fn explore(s: &Scenario, shard: usize, shards: usize, deadline: Option<Insta
         obs: HashSet::new(),
         deadline,
         stop: false,
+        sometimes_hit: vec![false; s.sometimes.len()],
     }));
     // determinism: the default execution must reproduce itself (enumerations inside one
     // execution make no hidden choice and are not run three times)
@@ -450,6 +463,20 @@ pub fn explore(s: &Scenario, shard: usize, shards: usize, deadline: Option<Insta
                 "{}: violation did not reproduce on replay ({})",
                 s.name, v.message
             ));
+        }
+    }
+    // reachability obligations, judged only on a complete exploration by a single process
+    if shards == 1 && !acc.rep.capped && !acc.stop && acc.rep.machinery_errors.is_empty() && confirmed.is_empty() {
+        for (i, (sig, what, _)) in s.sometimes.iter().enumerate() {
+            if !acc.sometimes_hit[i] {
+                confirmed.push(Violation {
+                    scenario: s.name.clone(),
+                    order: order_name(s.orders[0]).to_string(),
+                    choices: vec![],
+                    sig: sig.clone(),
+                    message: format!("{}: in none of the {} executions explored (every answer of every choice within the bound) {what}", s.descr, acc.rep.executions),
+                });
+            }
         }
     }
     acc.rep.violations = confirmed;
